@@ -73,6 +73,16 @@ inductive TOp
   | select                        -- SELECT x FROM r
   deriving DecidableEq, Repr
 
+/-- statements with a target and a source table -/
+inductive COp
+  | insertSelect   -- INSERT INTO a SELECT x FROM b
+  | ctas           -- CREATE TABLE a AS SELECT x FROM b        (also with the source wrapped in a CTE)
+  | clone          -- CREATE TABLE a CLONE b
+  | updateFrom     -- UPDATE a SET x = a.x + 1000 FROM b WHERE a.x = b.x
+  | deleteUsing    -- DELETE FROM a USING b WHERE a.x = b.x
+  | merge          -- MERGE INTO a USING b ON a.x = b.x WHEN NOT MATCHED THEN INSERT (x) VALUES (b.x)
+  deriving DecidableEq, Repr
+
 inductive SOp
   | create (ifx : Bool)   -- CREATE SCHEMA [IF NOT EXISTS]
   | drop (ifx : Bool)     -- DROP SCHEMA [IF EXISTS]
@@ -89,6 +99,7 @@ inductive Stmt
   | sch (op : SOp) (r : SRef)
   | tab (op : TOp) (r : TRef)
   | join (r1 r2 : TRef)           -- SELECT count(*) FROM r1 a, r2 b
+  | two (op : COp) (a b : TRef)   -- target a, source b
   | selectCtx
   deriving DecidableEq, Repr
 
@@ -168,6 +179,43 @@ def Cat.joinCount (c : Cat) (a b : Name × Name × Name) : Res :=
     | .error e => .err e
     | .ok rb => .rows [ra.length * rb.length]
 
+def COp.creates : COp → Bool | .ctas | .clone => true | _ => false
+
+/-- what is wrong with the target of a two-table statement (modelled engine) -/
+def Cat.targetErr (c : Cat) (op : COp) (d s n : Name) : Option Err :=
+  if !c.hasDb d then some .binder else
+  match op with
+  | .ctas | .clone => if !c.hasSchema d s || (c.find d s n).isSome then some .catalog else none
+  | .insertSelect =>
+    match c.find d s n with
+    | none => some .catalog
+    | some o => if o.kind = .view then some .catalog else none
+  | .updateFrom | .deleteUsing | .merge =>
+    match c.find d s n with
+    | none => some .catalog
+    | some o => if o.kind = .view then some .binder else none
+
+/-- new rows of the target, given the source's rows -/
+def COp.rows (op : COp) (old src : List Nat) : List Nat :=
+  match op with
+  | .insertSelect => old ++ src
+  | .ctas | .clone => src
+  | .updateFrom => old.map fun v => if src.contains v then v + 1000 else v
+  | .deleteUsing => old.filter fun v => !src.contains v
+  | .merge => old ++ src.filter fun v => !old.contains v
+
+/-- a two-table statement on fully qualified names: the target is checked first, then the source is read -/
+def Cat.applyTwo (c : Cat) (op : COp) (a b : Name × Name × Name) : Res × Cat :=
+  match c.targetErr op a.1 a.2.1 a.2.2 with
+  | some e => (.err e, c)
+  | none =>
+    match c.read b.1 b.2.1 b.2.2 with
+    | .error e => (.err e, c)
+    | .ok rb =>
+      if op.creates then (.ok, { c with objs := c.objs ++ [⟨a.1, a.2.1, a.2.2, .table, op.rows [] rb⟩] })
+      else (.ok, { c with objs := c.objs.map fun o =>
+                     if o.at a.1 a.2.1 a.2.2 then { o with rows := op.rows o.rows rb } else o })
+
 /-! ## Impl: the connection as fakesnow keeps it -/
 
 structure Session where
@@ -195,6 +243,16 @@ def Stmt.needs : Stmt → Bool × Bool
   | .sch _ r => (r.needDb, false)
   | .tab _ r => (r.needDb, r.needSchema)
   | .join r1 _ => (r1.needDb, r1.needSchema)
+  -- MERGE is decomposed; its first statement creates the unqualified temporary table `merge_candidates`
+  | .two .merge _ _ => (true, true)
+  | .two _ a _ => (a.needDb, a.needSchema)
+
+/-- statements fakesnow cannot build at all: MERGE with a schema- or database-qualified source makes the decomposition
+    produce `… FROM merge_candidates AS db.s.t`, a sqlglot ParseError before anything runs (C12's finding) -/
+def Stmt.rawFails : Stmt → Bool
+  | .two .merge _ (.q1 _) => false
+  | .two .merge _ _ => true
+  | _ => false
 
 /-- `cursor.py:229-240` -/
 def Session.guard (s : Session) (need : Bool × Bool) : Option Err :=
@@ -258,6 +316,9 @@ def exec (c : Cat) (ss : Session) : Stmt → Res × Cat × Session
     let r := c.applyT op q.1 q.2.1 q.2.2
     (r.1, r.2, ss)
   | .join r1 r2 => (c.joinCount (duckResolve c ss.path false r1) (duckResolve c ss.path false r2), c, ss)
+  | .two op a b =>
+    let r := c.applyTwo op (duckResolve c ss.path op.creates a) (duckResolve c ss.path false b)
+    (r.1, r.2, ss)
   | .selectCtx => (.ctx (some ss.path.1) (some ss.path.2), c, ss)
 
 namespace Impl
@@ -266,6 +327,7 @@ def step (w : World) (i : Nat) (st : Stmt) : Res × World :=
   match w.sessions[i]? with
   | none => (.err .raw, w)
   | some ss =>
+    if st.rawFails then (.err .raw, w) else
     match ss.guard st.needs with
     | some e => (.err e, w)
     | none =>
@@ -359,6 +421,13 @@ def sexec (c : Cat) (x : Ctx) : Stmt → Res × Cat × Ctx × Option (Name × Na
       match x.resolveT r2 with
       | .error e => (.err e, c, x, none)
       | .ok b => (c.joinCount a b, c, x, none)
+  | .two op r1 r2 =>
+    match x.resolveT r1 with
+    | .error e => (.err e, c, x, none)
+    | .ok a =>
+      match x.resolveT r2 with
+      | .error e => (.err e, c, x, none)
+      | .ok b => let r := c.applyTwo op a b; (r.1, r.2, x, none)
   | .selectCtx => (.ctx x.db x.schema, c, x, none)
 
 namespace Spec
@@ -406,7 +475,7 @@ def World.coherent (w : World) : Bool := w.sessions.all (·.coherent w.cat)
 inductive Key
   | useDatabaseStaleSchema | dropDatabaseUnsupported | useWithoutKind | schemaDroppedByOtherConnection
   | nonFirstTableUnqualified | unqualifiedFallsBackToMain | currentSchemaMainWhenNone | useSchemaWithoutDatabase
-  | connectNamesMissingContext
+  | connectNamesMissingContext | mergeQualifiedSource
   deriving DecidableEq, Repr
 
 def Key.name : Key → String
@@ -419,6 +488,7 @@ def Key.name : Key → String
   | .currentSchemaMainWhenNone => "C03/current-schema-main-when-none"
   | .useSchemaWithoutDatabase => "C03/use-schema-without-database-2043"
   | .connectNamesMissingContext => "C03/connect-names-missing-context"
+  | .mergeQualifiedSource => "C03/merge-qualified-source"
 
 /-- a one-part lookup that DuckDB answers from the current catalog's `main` schema -/
 def fallsBack (c : Cat) (path : Name × Name) : TRef → Bool
@@ -438,6 +508,12 @@ def localRegion (c : Cat) (ss : Session) : Stmt → Option Key
     if (ss.guard (r1.needDb, r1.needSchema)).isNone && (ss.guard (r2.needDb, r2.needSchema)).isSome
     then some .nonFirstTableUnqualified
     else if fallsBack c ss.path r1 || fallsBack c ss.path r2 then some .unqualifiedFallsBackToMain
+    else none
+  | .two op a b =>
+    if (Stmt.two op a b).rawFails then some .mergeQualifiedSource
+    else if (ss.guard (Stmt.two op a b).needs).isNone && (ss.guard (b.needDb, b.needSchema)).isSome
+    then some .nonFirstTableUnqualified
+    else if (!op.creates && fallsBack c ss.path a) || fallsBack c ss.path b then some .unqualifiedFallsBackToMain
     else none
   | _ => none
 
@@ -468,6 +544,25 @@ def region (w : World) (i : Nat) (st : Stmt) : Option Key :=
 def connectRegion (w : World) (d s : Option Name) (cd cs : Bool) : Option Key :=
   let r := Impl.newSession w.cat d s cd cs
   if r.2.coherent r.1 then none else some .connectNamesMissingContext
+
+def TRef.bare : TRef → Name | .q1 n => n | .q2 _ n => n | .q3 _ _ n => n
+
+/-- UPDATE…FROM / DELETE…USING / MERGE whose target and source have the same bare name: DuckDB rejects the duplicate
+    alias; the correspondence check does not explore these (the driver flags them, the history ends) -/
+def Stmt.unexplored : Stmt → Bool
+  | .two op a b => (op == .updateFrom || op == .deleteUsing || op == .merge) && a.bare == b.bare
+  | _ => false
+
+/-- both target and source are faulty with different exception classes: which one DuckDB reports first is not
+    modelled; the check only requires *an* error and an unchanged world -/
+def Stmt.doubleFault (c : Cat) (path : Name × Name) : Stmt → Bool
+  | .two op a b =>
+    let ta := duckResolve c path op.creates a
+    let tb := duckResolve c path false b
+    match c.targetErr op ta.1 ta.2.1 ta.2.2, c.read tb.1 tb.2.1 tb.2.2 with
+    | some e1, .error e2 => e1 != e2
+    | _, _ => false
+  | _ => false
 
 /-! ## Histories -/
 
